@@ -45,6 +45,8 @@ PROBES = [
     # typed nil handed to join: fixed = the program calls f and gets a nil error
     ("typedNilFixed", "typednil", "package main\n\n" + ERRS + "var called bool\n\nfunc F() (int, error) { called = true; return 1, nil }\n\n"
      "func main() {\n\tvar e0 Errs\n\tv, err := deriveJoin(F, e0)\n\tif called && v == 1 && err == nil {\n\t\tprintln(\"ok\")\n\t}\n}\n"),
+    # toerror's own locals against parameters of the same names
+    ("localsFixed", "locals", "package w\n\nvar F func(wait, success int) (int, bool)\n\nvar e error\nvar W = deriveToError(e, F)\n"),
 ]
 # the repairs of these three are refusals (exit 1); a generator that serves the call correctly would count as well
 PROBE_MODE = {"errTypeFixed": "refuse-or-build", "errRecvFixed": "refuse", "typedNilFixed": "refuse-or-run"}
@@ -57,7 +59,7 @@ INFO_PROBES = [
 
 # reason reported by the model for a wrapper that does not compile -> finding id
 WHY_FINDING = {"unnamed": "F6", "shadow": "F6", "dup": "F6", "void": "F25", "zero": "F5", "emptylhs": "F5",
-               "errtype": "errtype", "errrecv": "errrecv", "typednil": "typednil"}
+               "errtype": "errtype", "errrecv": "errrecv", "typednil": "typednil", "locals": "locals"}
 WHY_TEXT = {
     "unnamed": "unnamed parameters: the wrapper body is printed as `f(, )` and does not compile",
     "shadow": "a parameter named like the generator's own binder (`f`, `err`) captures it: the wrapper does not compile",
@@ -66,6 +68,7 @@ WHY_TEXT = {
     "errtype": "(F50) a custom error type (named type with Error() string) as the last result of a stage is accepted, but the helper's parameter is printed with the predeclared error: the call does not compile (compose, traverse, fmap and join error forms)",
     "errrecv": "(F51) derive.IsError accepts a type whose Error method has a pointer receiver although it is used by value (does not implement error): exit 0, package does not compile",
     "typednil": "(F52) deriveJoin(f, e) with a nil value e of a custom error type: the helper receives a non-nil error, does not call f and returns zero values with a non-nil error",
+    "locals": "toerror declares its locals `out<i>, success := f(...)` in the scope of f's parameters: a parameter called success (not bool) or out<i> (not of result i's type), or all of them, makes the wrapper not compile",
     "zero": "derive.Zero prints `nil` as the zero value of a named basic type, struct or array: the helper does not compile",
     "emptylhs": "compose prints `, err0 :=` / `return , err0` for a stage without non-error results: the helper does not compile",
 }
@@ -389,6 +392,7 @@ APPLICABLE = {
          ["compose_compiles_partial", "zero_ok", "zero_witnesses", "compose_lhs_witness", "fmap_join_zero_witness"]),
         (("unnamedFixed", "shadowFixed"), ["toerror_compiles_partial (side condition empty)"],
          ["toerror_compiles_partial", "toerror_witnesses"]),
+        (("localsFixed",), [], ["toerror_compiles_partial (its hloc clause)"]),
         (("errTypeFixed", "errRecvFixed", "typedNilFixed"), ["isError_fixed", "isError_sound_partial (side condition empty)"],
          ["isError_sound_partial", "isError_witnesses"]),
     ],
